@@ -299,7 +299,7 @@ static Verdict runPlain(const G &g) {
 
 // ------------------------------------------------------- DELTA_BINARY_PACKED
 static rc::Gen<int> deltaLen() {
-  return rc::gen::weightedOneOf<int>({{3, rc::gen::element(0, 1, 2, 32, 33, 34, 128, 129, 130, 256, 257, 258)}, {4, irange(0, 140)}, {1, irange(141, 700)}});
+  return rc::gen::weightedOneOf<int>({{3, rc::gen::element(0, 1, 2, 32, 33, 34, 128, 129, 130, 256, 257, 258, 384, 385, 386, 513, 641, 1025)}, {4, irange(0, 140)}, {1, irange(141, 700)}});
 }
 template <class T> static rc::Gen<std::vector<int64_t>> deltaSeq(int n, bool is32) {
   // styles: arbitrary values (wrap-around deltas), small steps, min/max alternation, deltas of a chosen width
@@ -323,7 +323,17 @@ template <class T> static rc::Gen<std::vector<int64_t>> deltaSeq(int n, bool is3
                               for (uint64_t r : std::get<1>(p)) { x += (w >= 64 ? r : (r & ((1ull << w) - 1))); v.push_back(is32 ? (int64_t)(int32_t)(uint32_t)x : (int64_t)x); }
                               return v;
                             });
-  return rc::gen::weightedOneOf<std::vector<int64_t>>({{3, arb}, {2, steps}, {1, alt}, {3, width}});
+  // evenly spaced values (row ids, fixed-rate timestamps): every delta equal, all mini-blocks of width 0 - the most compact
+  // stream the format has; optionally one value off the line (a single wide mini-block in an otherwise minimal stream)
+  auto linear = rc::gen::map(rc::gen::tuple(is32 ? rc::gen::map(gen::int32Gen(), [](int32_t x) { return (int64_t)x; }) : gen::int64Gen(),
+                                            rc::gen::weightedOneOf<int64_t>({{3, rc::gen::element<int64_t>(0, 1, -1, 2, 1000, -40)}, {1, rc::gen::map(gen::int32Gen(), [](int32_t x) { return (int64_t)x; })}}),
+                                            rc::gen::weightedOneOf<int>({{1, rc::gen::just(-1)}, {1, irange(0, n > 0 ? n - 1 : 0)}})),
+                             [n, is32](const std::tuple<int64_t, int64_t, int> &p) {
+                               std::vector<int64_t> v; uint64_t x = (uint64_t)std::get<0>(p);
+                               for (int i = 0; i < n; i++) { uint64_t y = (i == std::get<2>(p)) ? x + 12345u : x; v.push_back(is32 ? (int64_t)(int32_t)(uint32_t)y : (int64_t)y); x += (uint64_t)std::get<1>(p); }
+                               return v;
+                             });
+  return rc::gen::weightedOneOf<std::vector<int64_t>>({{3, arb}, {2, steps}, {1, alt}, {3, width}, {2, linear}});
 }
 static rc::Gen<G> genDelta(bool is32) {
   return rc::gen::mapcat(deltaLen(), [is32](int n) {
@@ -429,6 +439,8 @@ static Verdict runStrings(const G &g, bool incremental) {
     PBT_CHECK(vd, got[i].length == (int32_t)g.strs[i].size(), "value %zu length %d want %zu", i, got[i].length, g.strs[i].size());
     PBT_CHECK(vd, memcmp(got[i].data, g.strs[i].data(), g.strs[i].size()) == 0, "value %zu bytes differ", i);
   }
+  std::string ap = appendCheck(out.bytes(), [&](carquet_buffer_t *b) { return incremental ? carquet_delta_strings_encode(arr.data(), (int32_t)n, b) : carquet_delta_length_encode(arr.data(), (int32_t)n, b); });
+  PBT_CHECK(vd, ap.empty(), "%s: %s", incremental ? "DELTA_BYTE_ARRAY" : "DELTA_LENGTH_BYTE_ARRAY", ap.c_str());
   return vd;
 }
 
@@ -438,7 +450,7 @@ static rc::Gen<G> genBss() {
   return rc::gen::mapcat(rc::gen::weightedOneOf<int>({{2, rc::gen::just(4)}, {2, rc::gen::just(8)}, {3, rc::gen::map(irange(1, 20), [](int L) { return 100 + L; })}}), [](int w) {
     int L = w >= 100 ? w - 100 : w;
     // rarely a count around 32768 / 65536 (block-wise kernels, 16-bit counters); those bytes come from a seeded xorshift
-    return rc::gen::mapcat(rc::gen::weightedOneOf<int>({{240, irange(0, 70)}, {60, irange(71, 600)}, {L <= 8 ? 5 : 0, rc::gen::element(32767, 32768, 32769, 32784, 40000, 65535, 65536, 65537, 70001)}}), [w, L](int n) {
+    return rc::gen::mapcat(rc::gen::weightedOneOf<int>({{240, irange(0, 70)}, {60, irange(71, 600)}, {L <= 8 ? 10 : 0, rc::gen::element(32767, 32768, 32769, 32784, 40000, 65535, 65536, 65537, 70001)}}), [w, L](int n) {
       if (n > 600) return rc::gen::map(bits64(), [w, L, n](uint64_t seed) { Bytes b((size_t)n * (size_t)L); uint64_t s = seed | 1; for (auto &x : b) { s ^= s << 13; s ^= s >> 7; s ^= s << 17; x = (uint8_t)(s >> 24); } G g; g.w = w; g.strs.push_back(b); return g; });
       return rc::gen::map(rc::gen::container<Bytes>((size_t)(n * L), rc::gen::arbitrary<uint8_t>()), [w](const Bytes &b) { G g; g.w = w; g.strs.push_back(b); return g; });
     });
@@ -464,6 +476,26 @@ static Verdict runBss(const G &g) {
   else s = carquet_byte_stream_split_decode(enc.p, enc.n, L, dst.p, (int64_t)n);
   PBT_CHECK(vd, s == CARQUET_OK, "decode of own output failed: %d", (int)s);
   PBT_CHECK(vd, memcmp(dst.p, flat.data(), n * L) == 0, "values differ (n=%zu L=%d)", n, L);
+  // pointers as a reader has them: the page bytes start at any byte of a larger buffer, the output pointer has the alignment
+  // of its element type only (a page decoded behind values that are already there)
+  {
+    size_t el = g.w == 4 ? 4 : g.w == 8 ? 8 : 1;
+    size_t mis = el * (1 + n % 3), emis = 1 + n % 7;
+    Exact enc2(n * L + emis), dst2(n * L + mis);
+    memcpy(enc2.p + emis, enc.p, n * L);
+    if (g.w == 4) s = carquet_byte_stream_split_decode_float(enc2.p + emis, n * L, (float *)(dst2.p + mis), (int64_t)n);
+    else if (g.w == 8) s = carquet_byte_stream_split_decode_double(enc2.p + emis, n * L, (double *)(dst2.p + mis), (int64_t)n);
+    else s = carquet_byte_stream_split_decode(enc2.p + emis, n * L, L, dst2.p + mis, (int64_t)n);
+    PBT_CHECK(vd, s == CARQUET_OK, "decode of own output at other pointer alignments (input +%zu, output +%zu) failed: %d", emis, mis, (int)s);
+    PBT_CHECK(vd, memcmp(dst2.p + mis, flat.data(), n * L) == 0, "values differ when input starts at +%zu and output at +%zu bytes from a 16-byte boundary (n=%zu L=%d)", emis, mis, n, L);
+    Exact in2(n * L + mis), enc3(n * L + emis);
+    memcpy(in2.p + mis, flat.data(), n * L);
+    size_t w3 = 0;
+    if (g.w == 4) s = carquet_byte_stream_split_encode_float((const float *)(in2.p + mis), (int64_t)n, enc3.p + emis, n * L, &w3);
+    else if (g.w == 8) s = carquet_byte_stream_split_encode_double((const double *)(in2.p + mis), (int64_t)n, enc3.p + emis, n * L, &w3);
+    else s = carquet_byte_stream_split_encode(in2.p + mis, (int64_t)n, L, enc3.p + emis, n * L, &w3);
+    PBT_CHECK(vd, s == CARQUET_OK && w3 == n * (size_t)L && memcmp(enc3.p + emis, enc.p, n * L) == 0, "encoding the same values from/to other pointer alignments gives different bytes (status %d)", (int)s);
+  }
   return vd;
 }
 
